@@ -38,11 +38,21 @@ def _strip_not(e):
     return e, flip
 
 
-def walk(fn, valuation: Dict[str, bool], norm: Callable[[ast.AST], str], max_steps=400):
+def walk_stmts(stmts, valuation, norm, env=None):
+    """walk a statement list (e.g. a loop body) as if it were a function body, starting from the bindings `env`"""
+    f = ast.FunctionDef(name="_block", args=ast.arguments(posonlyargs=[], args=[], kwonlyargs=[], kw_defaults=[], defaults=[]),
+                        body=[clone(s) for s in stmts], decorator_list=[], lineno=getattr(stmts[0], "lineno", 1), col_offset=0)
+    ast.fix_missing_locations(f)
+    from .canon import set_parents
+    set_parents(f)
+    return walk(f, valuation, norm, env=env)
+
+
+def walk(fn, valuation: Dict[str, bool], norm: Callable[[ast.AST], str], max_steps=400, env=None):
     """follow the unique path selected by `valuation` (atom text -> truth). Returns ('return', expr) | ('raise', node) | ('fall', None) |
-    ('unknown', reason)"""
+    ('loop', (env, node)) | ('unknown', reason)"""
     g = CFG(fn)
-    env: Dict[str, ast.expr] = {}
+    env = dict(env or {})
     node = g.entry
     steps = 0
     visited = set()
@@ -79,15 +89,21 @@ def walk(fn, valuation: Dict[str, bool], norm: Callable[[ast.AST], str], max_ste
         if node.kind in ("raisestmt", "raise"):
             return ("raise", a)
         if node.kind == "iter":
-            return ("unknown", "loop on the path")
+            return ("loop", (dict(env), node))
         if a is not None and node.kind == "stmt":
-            if isinstance(a, ast.Assign) and len(a.targets) == 1 and isinstance(a.targets[0], ast.Name):
+            if isinstance(a, ast.FunctionDef):
+                env[a.name] = a            # a nested def binds its name to a callable (kept as the definition itself)
+            elif isinstance(a, ast.Assign) and len(a.targets) == 1 and isinstance(a.targets[0], ast.Name):
                 env[a.targets[0].id] = _Sub(env).visit(clone(a.value))
             elif isinstance(a, ast.Assign) and len(a.targets) == 1 and isinstance(a.targets[0], ast.Tuple) and isinstance(a.value, ast.Tuple) \
                     and len(a.targets[0].elts) == len(a.value.elts) and all(isinstance(t, ast.Name) for t in a.targets[0].elts):
                 vals = [_Sub(env).visit(clone(v)) for v in a.value.elts]
                 for t, v in zip(a.targets[0].elts, vals):
                     env[t.id] = v
+            elif isinstance(a, ast.Assign) and len(a.targets) == 1 and isinstance(a.targets[0], ast.Tuple) and len(a.targets[0].elts) == 1 \
+                    and isinstance(a.targets[0].elts[0], ast.Name):
+                # `x, = call(...)` unpacks a one-element result
+                env[a.targets[0].elts[0].id] = ast.Subscript(value=_Sub(env).visit(clone(a.value)), slice=ast.Constant(value=0), ctx=ast.Load())
             elif isinstance(a, ast.AugAssign) and isinstance(a.target, ast.Name):
                 cur = env.get(a.target.id, ast.Name(id=a.target.id, ctx=ast.Load()))
                 env[a.target.id] = ast.BinOp(left=clone(cur), op=a.op, right=_Sub(env).visit(clone(a.value)))
@@ -118,8 +134,26 @@ def table(fn, atoms: Sequence[str], norm: Callable[[ast.AST], str], constraints:
         kind, res = walk(fn, val, norm)
         if kind == "return":
             out[bits] = (kind, norm(res))
-        elif kind == "unknown":
+        elif kind in ("unknown", "loop"):
             out[bits] = (kind, res)
         else:
             out[bits] = (kind, None)
     return out
+
+
+def callable_text(v, norm) -> str:
+    """canonical text of a callable value: a bound method `obj.meth`, or `lambda _a0, ...: expr` for a lambda / a nested def that is one expression"""
+    from .canon import _single_expr, _Rename
+    if isinstance(v, ast.Lambda):
+        params = [a.arg for a in v.args.args]
+        body = v.body
+    elif isinstance(v, ast.FunctionDef):
+        body = _single_expr(v)
+        if body is None:
+            return "<def " + v.name + ">"
+        params = [a.arg for a in v.args.args]
+    else:
+        return norm(v)
+    m = {p: f"_a{i}" for i, p in enumerate(params)}
+    b = _Rename(m).visit(clone(body))
+    return "lambda " + ",".join(m[p] for p in params) + ":" + norm(b)
